@@ -104,6 +104,18 @@ pub fn sparse_extend(n: usize, pos: &[usize]) -> Result<SparseVector, String> {
     }).and_then(|r| r)
 }
 
+// The unchecked setter with its contract met (not full, non-decreasing / increasing, below the universe), mixed with
+// the checked one.
+pub fn sparse_set_unchecked(n: usize, pos: &[usize], multiset: bool, mix: usize) -> Result<SparseVector, String> {
+    guard(|| {
+        let mut b = if multiset { SparseBuilder::multiset(n, pos.len()) } else { SparseBuilder::new(n, pos.len()).map_err(|e| e.to_string())? };
+        for (i, &p) in pos.iter().enumerate() {
+            if mix > 0 && i % (mix + 1) == mix { b.try_set(p).map_err(|e| e.to_string())?; } else { unsafe { b.set_unchecked(p); } }
+        }
+        SparseVector::try_from(b).map_err(|e| e.to_string())
+    }).and_then(|r| r)
+}
+
 pub fn multiset_set(n: usize, pos: &[usize]) -> Result<SparseVector, String> {
     guard(|| {
         let mut b = SparseBuilder::multiset(n, pos.len());
